@@ -370,7 +370,9 @@ theorem c03_parse_message_not_transparent :
   constructor <;> decide
 
 /-
-  **Left-recursion-free grammars satisfy the two hypotheses — statement, NOT proved**:
+  **Left-recursion-free grammars satisfy the two hypotheses — the statement as first written.  It is now PROVED in
+  Props/C03L.lean (`c03_lrf_no_reentry`, `c03_transparent_lrf`, `c03_once_lrf`) for a decidable certificate `lrf`
+  (the rank formulation below turned out to be insufficient: `c03l_rank_alone_insufficient`):**
 
     theorem lrf_no_reentry (cert : Nat → Bool × Nat) (h : LRF cert cfg.env g)
         (hr : run cfg fuel g [] pos {} = some (o, st')) : NoCurtail st'.log ∧ NoReentry st'.log
